@@ -10,7 +10,7 @@ import types
 import z3
 
 from . import extract, seqops
-from .contract import Const, FixedList, Loop, MapOf, Obj, Optional, Root, Same, SeqOf, Spec, SymDict, _Scalar
+from .contract import Const, FixedList, Loop, MapOf, Obj, OneOf, Optional, Root, Same, SeqOf, Spec, SymDict, _Scalar
 from .core import Explorer, Infeasible, Path, PathEnd, PyRaise
 from .interp import Interp, OldNS
 from .interp_call import Frame
@@ -76,6 +76,13 @@ def make_symbolic(I: Interp, spec, hint, root=None, env=None):
             fields[f] = (fs.kind, z3.Array(f"{name}.{f}", z3.IntSort(), sort_of(fs.kind)))
         path.ex.inputs[name + ".dom"] = {"kind": "map", "dom": dom, "fields": fields}
         return path.alloc(MapCell("int", "ref", dom, None, spec.cls, fields))
+    if isinstance(spec, OneOf):
+        for n, alt in enumerate(spec.alternatives[:-1]):
+            b = z3.Bool(f"in:{hint}.alt{n}")
+            path.ex.inputs[f"in:{hint}.alt{n}"] = {"kind": "bool", "term": b}
+            if I.branch(Sym("bool", b)):
+                return make_symbolic(I, alt, hint, root, env)
+        return make_symbolic(I, spec.alternatives[-1], hint, root, env)
     if isinstance(spec, Root):
         if root is None:
             raise Unsupported("Root() outside an object spec")
